@@ -295,4 +295,104 @@ theorem rollbackOld_leaks_regression :
     (((l.begin.set k [7]).1.rollback.begin.commit).remote.cview k = none) := by
   decide
 
+
+namespace Witness
+/-- "LODB-vfb-k" -/
+def kB : Bytes := [76, 79, 68, 66, 45, 118, 102, 98, 45, 107]
+def env0 : Env := { cfg := { isPara := false, title := [], forkExecKey := true },
+                    allowUser := synthAllowUser, registry := fullRegistry }
+end Witness
+
+open LocalDB in
+/-- **rollback_exact** — the two single-transaction theorems about *the same* fee-only run: one `stF`,
+whose StateDB and LocalDB are both observationally equal to those left by the failed transaction. -/
+theorem rollback_exact (env : Env) (hfr : env.forkExecRollback = true)
+    (st : St) (hinv : Inv st.ldb) (hidle : st.ldb.intx = false)
+    (tx : Tx) (r : Receipt) (obs : List Obs) (st' : St)
+    (h : execTx env st tx = .done [r] [obs] st') (hf : r.failed = true) :
+    ∃ rF stF, execTx env st (feeOnly tx) = .done [rF] [[]] stF ∧ rF.kv = r.kv ∧ rF.ty = r.ty ∧
+      (∀ ops, runS st'.sdb ops = runS stF.sdb ops) ∧ (∀ ts, runL st'.ldb ts = runL stF.ldb ts) := by
+  obtain ⟨rF, stF, h1, h2, h3, h4⟩ := state_rollback_exact env hfr st tx r obs st' h hf
+  obtain ⟨rF', stF', h1', h5⟩ := local_rollback_exact env hfr st hinv hidle tx r obs st' h hf
+  rw [h1] at h1'
+  injection h1' with _ _ e3
+  subst e3
+  exact ⟨rF, stF, h1, h2, h3, h4, h5⟩
+
+open LocalDB in
+/-- **group_local_rollback_exact** — local data of a failed group: every later sequence of local
+transactions observes exactly what it observes right after the group fee was charged (`st1`; charging
+the fee does not touch the LocalDB, so this is the LocalDB before the group).  `LClean`: the LocalDB
+as block execution leaves it between units (`initSt_lclean`, `execUnit_lclean`). -/
+theorem group_local_rollback_exact (env : Env) (hfr : env.forkExecRollback = true)
+    (st : St) (hclean : LClean st.ldb)
+    (head : Tx) (members : List Tx) (feelog : Receipt) (st1 : St)
+    (rs : List Receipt) (obs : List (List Obs)) (st' : St)
+    (hfee : execFee env st head = .ok feelog st1)
+    (h : execTxGroup env st (head :: members) = .done rs obs st')
+    (hf : ∃ r ∈ rs, r.failed = true) :
+    ∀ ts, runL st'.ldb ts = runL st1.ldb ts := by
+  have hnf := execFee_ok_not_failed env st head feelog st1 hfee
+  have hl := execFee_ldb env st head feelog st1 hfee
+  have c1 : LClean st1.ldb := by rw [hl]; exact hclean
+  have hb := begin_txf_clean env hfr st1 c1
+  have hroll : ∀ s : St, (s.rollback env).ldb = s.ldb.rollback := fun s => by simp [St.rollback, hfr]
+  have fin : ∀ s : St, TxF st1.ldb false false s.ldb → ∀ ts, runL (s.rollback env).ldb ts = runL st1.ldb ts := by
+    intro s t ts
+    obtain ⟨ia, xa, ea⟩ := TxF.rollback t
+    rw [hroll]
+    exact LEq.runL_eq ⟨by rw [ea, c1.erase_eq], ia, c1.inv⟩ xa ts
+  unfold execTxGroup at h
+  simp only at h
+  rw [hfee] at h
+  simp only at h
+  have tA := execTxOne_txf_ff env (st1.begin env) feelog head _ hb
+  cases hA : execTxOne env (st1.begin env) feelog head with
+  | blockPanic => rw [hA] at h; cases h
+  | failed r0 st2 o0 =>
+    rw [hA] at h tA
+    simp only at h
+    injection h with _ _ h3
+    subst h3
+    exact fin st2 tA
+  | ok r0 st2 o0 =>
+    rw [hA] at h tA
+    simp only at h
+    have hr0 := execTxOne_ok_not_failed env _ feelog head _ _ _ hnf hA
+    have tM := execMembers_txf_ff env members st2 [] [] _ tA
+    cases hM : execMembers env members st2 [] [] with
+    | blockPanic => rw [hM] at h; cases h
+    | ok rsM obsM st3 =>
+      rw [hM] at h
+      simp only at h
+      injection h with h1 _ _
+      subst h1
+      have hall := execMembers_ok_not_failed env members st2 [] [] _ _ _ (by simp) hM
+      obtain ⟨r, hm, hfr'⟩ := hf
+      rcases List.mem_cons.1 hm with hm | hm
+      · subst hm; rw [hr0] at hfr'; cases hfr'
+      · rw [hall r hm] at hfr'; cases hfr'
+    | failed nb r obsM st3 =>
+      rw [hM] at h tM
+      simp only at h
+      injection h with _ _ h3
+      subst h3
+      exact fin st3 tM
+
+/-- satisfiability of the hypotheses of `group_all_or_fee` / `group_local_rollback_exact`: the head (vfa)
+succeeds, the second member (vfb) writes state and a local key, then fails. -/
+example :
+    let env : Env := Witness.env0
+    let head : Tx := { acctKey := [1], fee := 2, execer := [118, 102, 97],
+                       execOps := [.setS [109, 97, 118, 108, 45, 118, 102, 97, 45, 107] [9]], localOps := [] }
+    let m2 : Tx := { acctKey := [1], fee := 0, execer := [118, 102, 98],
+                     execOps := [.setS [109, 97, 118, 108, 45, 118, 102, 98, 45, 107] [8]],
+                     localOps := [.hidL Witness.kB [7], .fail] }
+    let st := initSt [([1], .acct 10)] []
+    env.forkExecRollback = true ∧ env.forkResetTx0 = true ∧ LClean st.ldb ∧
+    ∃ feelog st1 rs obs st', execFee env st head = .ok feelog st1 ∧
+      execTxGroup env st [head, m2] = .done rs obs st' ∧ ∃ r ∈ rs, r.failed = true := by
+  refine ⟨rfl, rfl, initSt_lclean _ _, _, _, _, _, _, rfl, rfl, ?_⟩
+  decide
+
 end C11
